@@ -182,6 +182,15 @@ func init() {
 			e := x.freshErr(st, "storeerr", And(in.Nil, x.sym.Fresh("storeerr.nil", SBool)))
 			return x.finish(st, fr, c, e)
 		})
+	reg("github.com/resonatehq/resonate/internal/util.Next", "util.Next(t, cron): may fail; on success returns cronnext(cron, t), the next occurrence, assumed strictly later than t (robfig/cron; an expression with no occurrence within five years yields the zero time, which is outside this assumption)",
+		func(x *Exec, st *State, fr *Frame, c *callCtx) bool {
+			t := x.scalar(st, c.args[0])
+			cr := x.scalar(st, c.args[1])
+			next := App(SInt, "cronnext", cr, t)
+			fail := x.sym.Fresh("cron.fails", SBool)
+			st.assume(Implies(Not(fail), And(Gt(next, t), Le(next, Term{"9223372036854775807", SInt}))))
+			return x.finish(st, fr, c, VTuple{[]Value{VScalar{Ite(fail, IntLit(0), next)}, x.freshErr(st, "cron.err", Not(fail))}})
+		})
 	// time
 	reg("(time.Duration).Milliseconds", "uninterpreted non-negative for non-negative durations", func(x *Exec, st *State, fr *Frame, c *callCtx) bool {
 		d := x.scalar(st, c.args[0])
